@@ -33,8 +33,8 @@ Allowed(r) ==
   /\ r.stdio = 0                                          \* nothing on stdout/stderr with a custom Logger
 
 Init == l = 1
-Observe == l <= Len(Rec) /\ Allowed(Rec[l]) /\ l' = l + 1
-Reject  == /\ l <= Len(Rec) /\ ~Allowed(Rec[l])
+Observe == l <= Len(Rec) /\ (Allowed(Rec[l]) = TRUE) /\ l' = l + 1
+Reject  == /\ l <= Len(Rec) /\ (Allowed(Rec[l]) = FALSE)
            /\ PrintT(<<"REJECT", ToJson([id |-> Rec[l].id, outcome |-> OutcomeOk(Rec[l]), err |-> ErrOk(Rec[l]),
                                           log |-> (Rec[l].haslog => LogOk(Rec[l].explog, Rec[l].log, Rec[l].quiet)),
                                           quiet |-> (Rec[l].quiet => Rec[l].log = <<>>), stdio |-> Rec[l].stdio = 0])>>)
